@@ -57,7 +57,7 @@ CLAIMED = {
    technique="symbolic execution of go/ssa + SMT (unit harness with symbolic policy tables)", design="5 C07"),
 
  "C12": dict(
-   text="Unit-level symbolic execution of the real sanitizeAttrs on audio/img/link/script/video/iframe/other with up to 2 (quick) / 3 (thorough) attributes (keys crossorigin/sandbox/other/free, free values, sandbox values of up to 3/4 tokens), with crossorigin forcing and/or a sandbox allowlist in which every one of the fourteen documented tokens is allowed or not by its own symbolic boolean (all 2^14 subsets in one run). SMT decides per path: every crossorigin equals anonymous and one exists; a sandbox attribute exists, every token of the emitted value (re-split on white space) is a listed token, no token occurs twice, the value is in canonical single-space form. The real RequireSandboxOnIFrame/AllowIFrames are executed on each documented value and the resulting table compared with the documented token.",
+   text="Unit-level symbolic execution of the real sanitizeAttrs on audio/img/link/script/video/iframe/other with up to 2 attributes (keys crossorigin/sandbox/other/free, free values, sandbox values of up to 3/4 tokens), with crossorigin forcing and/or a sandbox allowlist in which every one of the fourteen documented tokens is allowed or not by its own symbolic boolean (all 2^14 subsets in one run). SMT decides per path: every crossorigin equals anonymous and one exists; a sandbox attribute exists, every token of the emitted value (re-split on white space) is a listed token, no token occurs twice, the value is in canonical single-space form. The real RequireSandboxOnIFrame/AllowIFrames are executed on each documented value and the resulting table compared with the documented token.",
    note="Trusts: strings.Fields / strings.Join models (validated differentially), Fields bounded to 3/4 tokens per sandbox value (longer values cut and counted), z3 5.1 / cvc5 1.0, go/ssa semantics as interpreted.",
    technique="symbolic execution of go/ssa + SMT strings (unit harness)", design="5 C12"),
 
